@@ -25,33 +25,89 @@ partial def preorder : VTree → List Nat
 
 def validStr : Valid → String | .uneval => "U" | .tru => "T" | .fls => "F"
 
-/-- observation of one `validate()` call; `prev` holds the `.valid` flags left by earlier calls on
-    the same tree (a fresh tree has none: everything Unevaluated) -/
-def runOne (t : VTree) (prev : List (Nat × Valid)) : (Json × Bool) × List (Nat × Valid) :=
-  let r := validate t
-  let s := Spec.specValidate t
-  let prevF : Nat → Valid := fun id => ((prev.find? (·.1 == id)).map (·.2)).getD .uneval
-  let now := (preorder t).map (fun id => (id, validNow prevF t id))
-  let valids := now.map (fun p => Json.arr #[ofNat p.1, Json.str (validStr p.2)])
-  let allValid := allValidNow prevF t
-  let specAgrees := r.ret == s.ret && r.log == s.log &&
-    r.valids.map (fun p => (p.1, validStr p.2)) == s.valids.map (fun p => (p.1, validStr p.2))
-  ((obj [("ret", Json.bool r.ret), ("valids", Json.arr valids.toArray),
-    ("log", ofList (fun (c : Call) => Json.arr #[ofNat c.1, Json.bool c.2.1, ofNat c.2.2]) r.log),
-    ("all_valid", Json.bool allValid)], specAgrees), now)
+def outcomeStr : Outcome → String
+  | .tru => "T" | .fls => "F" | .none => "N" | .skip => "S" | .skipAll => "SA" | .skipAllFalse => "SAF"
 
-/-- case: "tree" (first call, fresh tree) and optionally "rounds": the same tree shape with other
-    outcomes / flags, validated again on the SAME element tree -/
-def run (j : Json) : Except String Json := do
+def callJson (c : Call) : Json := Json.arr #[ofNat c.1, Json.bool c.2.1, ofNat c.2.2]
+
+def eventJson : Event → Json
+  | .call c => Json.arr #[Json.str "c", ofNat c.1, Json.bool c.2.1, ofNat c.2.2]
+  | .signal s =>
+    let sender := match s.sender with
+      | .validator d k => Json.arr #[Json.str "v", Json.bool d, ofNat k]
+      | .notEmpty => Json.str "NE"
+    Json.arr #[Json.str "s", ofNat s.id, sender, Json.str (outcomeStr s.result)]
+
+partial def empties : VTree → List Json
+  | .node i kids => Json.arr #[ofNat i.id, Json.bool i.empty] :: kids.flatMap empties
+
+abbrev Store := List (Nat × Valid)
+
+def Store.fn (st : Store) : Nat → Valid := fun id => ((st.find? (·.1 == id)).map (·.2)).getD .uneval
+
+def storeJson (st : Store) : Json :=
+  Json.arr (st.map (fun p => Json.arr #[ofNat p.1, Json.str (validStr p.2)])).toArray
+
+/-- one step of a history on the SAME element tree; `prev` holds the `.valid` flags the earlier steps left
+    (a fresh tree has none: everything Unevaluated).  Returns the observation, "model A = spec B" and the store. -/
+def runStep (signal : Bool) (j : Json) (prev : Store) : Except String ((Json × Bool) × Store) := do
   let t ← parseTree (← fld j "tree")
-  let rounds ← (← arr (fldD j "rounds" (Json.arr #[]))).mapM parseTree
-  let ((o0, a0), st0) := runOne t []
-  let ((outs, agrees), _) := rounds.foldl (fun (acc : (List Json × Bool) × List (Nat × Valid)) rt =>
-    let ((o, a), st) := runOne rt acc.2
-    ((acc.1.1 ++ [o], acc.1.2 && a), st)) (([], a0), st0)
-  match o0 with
-  | .obj _ =>
-    return (o0.setObjVal! "rounds" (Json.arr outs.toArray)).setObjVal! "spec_agrees" (Json.bool agrees)
-  | _ => throw "internal"
+  let op ← sfld j "op"
+  let ids := preorder t
+  let common (now : Store) : List (String × Json) :=
+    [("valids", storeJson now), ("all_valid", Json.bool (allValid (Store.fn now) t)),
+     ("empties", Json.arr (empties t).toArray)]
+  match op with
+  | "validate" =>
+    let r := validate t
+    let s := Spec.specValidate t
+    let now : Store := ids.map (fun id => (id, validNow prev.fn t id))
+    let tr := validateTrace t
+    let specAgrees := r.ret == s.ret && r.log == s.log &&
+      r.valids.map (fun p => (p.1, validStr p.2)) == s.valids.map (fun p => (p.1, validStr p.2)) &&
+      tr == Spec.expectedTrace t && allValidNow prev.fn t == allValid (Store.fn now) t
+    return ((obj ([("ret", Json.bool r.ret), ("log", ofList callJson r.log),
+      ("trace", if signal then ofList eventJson tr else Json.null)] ++ common now), specAgrees), now)
+  | "norecurse" =>
+    let at_ ← nfld j "at"
+    match t.find at_ with
+    | none => throw s!"no element {at_}"
+    | some sub =>
+      let i := sub.info
+      let r := validateNoRecurse i
+      let now : Store := ids.map (fun id => (id, validNowNoRec prev.fn i id))
+      let tr := noRecurseTrace i
+      let specAgrees := r.valid == Spec.lastPhaseVerdict i && r.log == Spec.noRecurseLog i &&
+        tr == Spec.expectedNoRecurseTrace i &&
+        (!Spec.phasesAgree i || (r.valid == (Spec.specNoRecurse i).valid))
+      return ((obj ([("ret", Json.str (validStr r.valid)), ("log", ofList callJson r.log),
+        ("trace", if signal then ofList eventJson tr else Json.null),
+        ("at_all_valid", Json.bool (allValid (Store.fn now) sub))] ++ common now), specAgrees), now)
+  | "set_all_valid" =>
+    let at_ ← nfld j "at"
+    let v ← match (← sfld j "value") with
+      | "T" => pure Valid.tru | "F" => pure Valid.fls | "U" => pure Valid.uneval
+      | s => throw s!"bad value {s}"
+    match t.find at_ with
+    | none => throw s!"no element {at_}"
+    | some sub =>
+      let now : Store := ids.map (fun id => (id, setAllValid prev.fn sub v id))
+      return ((obj ([("at_all_valid", Json.bool (allValid (Store.fn now) sub))] ++ common now), true), now)
+  | s => throw s!"bad op {s}"
+
+/-- case (as sent by `model_input`): "hist" — the steps, each with the model tree computed from the real classes'
+    flags; "signal" — whether a receiver is connected to `validator_validated` -/
+def run (j : Json) : Except String Json := do
+  let steps ← afld j "hist"
+  let signal ← bfld j "signal"
+  let mut st : Store := []
+  let mut outs : Array Json := #[]
+  let mut agrees := true
+  for s in steps do
+    let ((o, a), st') ← runStep signal s st
+    outs := outs.push o
+    agrees := agrees && a
+    st := st'
+  return obj [("steps", Json.arr outs), ("spec_agrees", Json.bool agrees)]
 
 end Flatland.Run.C05
